@@ -42,9 +42,10 @@ def find_lift(ctx, parent):
         return None, "expected exactly one Vec::remove / swap_remove under %s (found %d)" % (parent.qname, len(rems))
     rb, rbi, rt = rems[0]
     defs = mu.defs_of(parent)
-    pos_calls = mu.calls(parent, r"as std::iter::Iterator>::position$")
+    # position() finds the first match, rposition() the last: either is a valid index of the same vector
+    pos_calls = mu.calls(parent, r"as std::iter::Iterator>::r?position$")
     if len(pos_calls) != 1:
-        return None, "expected exactly one Iterator::position call (found %d)" % len(pos_calls)
+        return None, "expected exactly one Iterator::position / rposition call (found %d)" % len(pos_calls)
     pos_bi, pos_t = pos_calls[0]
     pos_dest = pos_t["dest"]["l"]
     # which vector does position() run over:  &mut _it ; _it = <[T]>::iter(_r) ; _r = &*Deref::deref(&V)
@@ -79,7 +80,8 @@ def find_lift(ctx, parent):
         pred = prog.bodies.get(pcl[2]["def"]) if pcl is not None and pcl[1] != "term" and pcl[2].get("ak") == "closure" else None
     if pred is None:
         return None, "position() predicate is neither a closure nor a function of the crate"
-    info = {"vec": vec, "pos": pos_t, "pos_bi": pos_bi, "pred": pred, "remove": rt, "remove_body": rb, "remove_bi": rbi}
+    info = {"vec": vec, "pos": pos_t, "pos_bi": pos_bi, "pred": pred, "remove": rt, "remove_body": rb, "remove_bi": rbi,
+            "first": not pos_t["callee"]["def"].endswith("rposition")}
     if rb.kind == "Closure":
         cdefs = mu.defs_of(rb)
         if mu.origin_local(rb, cdefs, mu.op_local(rt["args"][1])) != 2:
